@@ -59,19 +59,22 @@ def check_case(case):
         if b["err"]:
             classes.append("frontend-reject")
             continue
+        all_runs = [b] + [x for nm, res in variants for x in [res[sid]] + res[sid].get("alt", [])]
+        # did z3 give up ('unknown') in any run of this session?  (see c18_child._watch_z3)
+        z3u = {"z3_unknown": str(any(x.get("z3_unknown", 0) > 0 for x in all_runs))}
         for name, r in [(nm, x) for nm, res in variants for x in [res[sid]] + res[sid].get("alt", [])]:
             where = f"session {sid}, variant [{name}] vs baseline [PYTHONHASHSEED=0]\nprogram:\n{render_program(sessions[sid]['prog'])}\nsteps: {sessions[sid]['steps']}"
             if r["err"] != b["err"]:
-                raise Violation({"kind": "frontend-outcome-differs"}, f"{where}: {b['err']} vs {r['err']}")
+                raise Violation(dict({"kind": "frontend-outcome-differs"}, **z3u), f"{where}: {b['err']} vs {r['err']}")
             for k, (sb, sr) in enumerate(zip(b["steps"], r["steps"])):
                 if sb[0] != sr[0]:
-                    raise Violation({"kind": "step-outcome-differs", "op": sb[0].split(":")[0]}, f"{where}\nstep {k}: outcome {sb[0]!r} vs {sr[0]!r}")
+                    raise Violation(dict({"kind": "step-outcome-differs", "op": sb[0].split(":")[0]}, **z3u), f"{where}\nstep {k}: outcome {sb[0]!r} vs {sr[0]!r}")
                 if sb[1] != sr[1]:
-                    raise Violation({"kind": "printed-proc-differs", "op": sb[0]}, f"{where}\nafter step {k} ({sb[0]}):\n--- baseline:\n{sb[1]}\n--- variant:\n{sr[1]}")
+                    raise Violation(dict({"kind": "printed-proc-differs", "op": sb[0]}, **z3u), f"{where}\nafter step {k} ({sb[0]}):\n--- baseline:\n{sb[1]}\n--- variant:\n{sr[1]}")
             if b["c"] != r["c"]:
-                raise Violation({"kind": "c-text-differs"}, f"{where}\n--- baseline .c:\n{(b['c'] or '')[-1500:]}\n--- variant .c:\n{(r['c'] or '')[-1500:]}")
+                raise Violation(dict({"kind": "c-text-differs"}, **z3u), f"{where}\n--- baseline .c:\n{(b['c'] or '')[-1500:]}\n--- variant .c:\n{(r['c'] or '')[-1500:]}")
             if b["h"] != r["h"]:
-                raise Violation({"kind": "h-text-differs"}, f"{where}\n--- baseline .h:\n{(b['h'] or '')[-1200:]}\n--- variant .h:\n{(r['h'] or '')[-1200:]}")
+                raise Violation(dict({"kind": "h-text-differs"}, **z3u), f"{where}\n--- baseline .h:\n{(b['h'] or '')[-1200:]}\n--- variant .h:\n{(r['h'] or '')[-1200:]}")
         acc = [s[0] for s in b["steps"][1:] if ":" not in s[0]]
         compiled = b["c"] is not None and not str(b["c"]).startswith("EXC:")
         classes.append("compiled" if compiled else "compile-rejected")
